@@ -7,3 +7,4 @@ pub mod otl_gpos;
 pub mod cmap;
 pub mod glyf;
 pub mod type2;
+pub mod sfnt_validate;
